@@ -334,6 +334,10 @@ class C04(F.Spec):
                     refused_open = True
             if t[0] in ("netstart",) or (t[0] == "fire" and t[1] == "recon"):
                 refused_open = False
+            if refused_open and t[0] == "fire" and t[1] == "stop" and "NOTARMED" in g:
+                fs.append(F.Finding("refusal-stop-not-scheduled", "the registration was refused but no stop is scheduled: the connection "
+                                    "stays open"))
+                refused_open = False
             fired = (t[0] == "fire" and t[1] == "stop" and "NOTARMED" not in g) or (t[0] == "adv" and int(t[1]) >= 10)
             if refused_open and fired:
                 st = [x for x in g if x.startswith("DCSTATE")]
